@@ -267,6 +267,44 @@ def shard(ctx):
             if bad:
                 ctx.violation("call:%s:callee-%s" % (bad[0], eff), "the called parameterised rule is %s but %s is %s, expected %s" % (eff, bad[0], got.get(bad[0]), want[bad[0]]), case)
 
+    # ---------------- (A4) blocks over TWO values whose bodies are forced to different statuses (PASS+SKIP, SKIP+FAIL, ...): type block,
+    #                  its filter desugaring, a query block over list elements
+    doc4 = {"a": 1, "l": [{"x": 1}, {"x": 2}], "Resources": {"r1": {"Type": "AWS::S3::Bucket", "Properties": {"a": 1}},
+                                                           "r2": {"Type": "AWS::S3::Bucket", "Properties": {"a": 2}},
+                                                           "r3": {"Type": "AWS::SNS::Topic", "Properties": {"a": 1}}}}
+    docs4 = json.dumps(doc4)
+    for cx, cy in itertools.product("PFS", repeat=2):
+        idx += 1
+        if not ctx.mine(idx):
+            continue
+        eff = "FAIL" if "F" in (cx, cy) else ("PASS" if "P" in (cx, cy) else "SKIP")
+        tb = "        when Properties.a == 1 {\n            %s\n        }\n        when Properties.a == 2 {\n            %s\n        }\n" % (LEAF[cx], LEAF[cy])
+        lb = "        when x == 1 {\n            %s\n        }\n        when x == 2 {\n            %s\n        }\n" % (LEAF[cx], LEAF[cy])
+        text = (PRELUDE + "rule t_type {\n    AWS::S3::Bucket {\n" + tb + "    }\n}\n"
+                "rule t_filter {\n    Resources.*[ Type == 'AWS::S3::Bucket' ] {\n" + tb + "    }\n}\n"
+                "rule t_list {\n    l[*] {\n" + lb + "    }\n}\n")
+        want = {"t_type": eff, "t_filter": eff, "t_list": eff}
+        case = {"kind": "gadget", "rules": text, "data": docs4, "expected": want}
+        res = ctx.w.run({"k": "rc", "data": docs4, "rules": text, "verbose": True})
+        ctx.res.cases += 1
+        if res.get("r") != "ok":
+            if core.crash_signature(res):
+                ctx.inconclusive("crash")
+            else:
+                ctx.violation("mixed-block:evaluation-error", "gadget failed: %s" % res.get("err", "")[:200], case)
+            continue
+        tree = json.loads(res["out"])
+        tc = check_tree(ctx, tree, text)
+        for sig, msg in tc.problems:
+            ctx.violation("tree:" + sig, msg + "\n" + text, case)
+        got = dict(obs.tree_rule_statuses(tree))
+        ctx.res.counts["mixed_block_gadgets"] += 1
+        ctx.res.distinct.add(("mixed-block", cx, cy))
+        bad = sorted(u for u in want if got.get(u) != want[u])
+        if bad:
+            ctx.violation("mixed-block:%s:%s+%s" % (bad[0], ST[cx], ST[cy]), "a block over two values whose bodies are %s and %s makes %s %s, expected %s" % (
+                ST[cx], ST[cy], bad[0], got.get(bad[0]), eff), case)
+
     # ---------------- (B) random programs
     n = 250 if ctx.quick else 12000
     rng = ctx.rng("B")
